@@ -150,8 +150,22 @@ def history(r, rec, trace, steps, hid):
                 o = Quantity(r.choice([1, 2, 1]) * U.meter, **({"display_symbol": nm} if r.random() < 0.5 else {}))
                 record("Quantity", o, {"display": None})
             elif k < 0.62:
-                o = CoordinateSystem(r.choice(list(CoordinateSystem.System)))
-                record("CoordinateSystem", o.coord_system, {"display": None})
+                existing = [oo for kk, oo, rr in created if kk == "CoordinateSystem"]
+                if existing and r.random() < 0.5:
+                    from symplyphysics import coordinates_transform
+                    src_cs = r.choice(existing)
+                    # a transformed system (possibly of the same type) is a new coordinate system, too
+                    o = coordinates_transform(src_cs, r.choice([src_cs.coord_system_type] + list(CoordinateSystem.System)))
+                else:
+                    o = CoordinateSystem(r.choice(list(CoordinateSystem.System)))
+                record("CoordinateSystem", o, {"display": None})
+                # distinctness of coordinate systems: object identity, inner SymPy system and its base scalars
+                for kk, oo, rr in created[:-1]:
+                    if kk == "CoordinateSystem" and (oo is o or oo.coord_system is o.coord_system or
+                                                     set(oo.coord_system.base_scalars()) & set(o.coord_system.base_scalars())):
+                        rec.violation("alias:CoordinateSystem", f"step {step}: a newly created coordinate system shares its identity / base scalars with an earlier one", {"history": hid, "step": step})
+                        return
+                continue
             elif k < 0.68:
                 o = VectorSymbol(nm, d)
                 record("VectorSymbol", o, {"display": nm, "dim": str(d)})
@@ -163,20 +177,25 @@ def history(r, rec, trace, steps, hid):
                 sub = r.choice([None, None, "0", "max", "1"])
                 pass_assume = dict(r.choice(ASSUME)) if r.random() < 0.35 else {}
                 which = r.choice(["symbol", "symbol", "function", "indexed"])
+                names_kw = {}
+                if r.random() < 0.3:
+                    names_kw["display_symbol"] = r.choice(["Q", "q2", "w"])
+                if r.random() < 0.3:
+                    names_kw["display_latex"] = r.choice(["\\Theta", "Q", "\\mathcal{W}"])
                 if which == "symbol":
-                    o = clone_as_symbol(src, subscript=sub, **pass_assume)
+                    o = clone_as_symbol(src, subscript=sub, **names_kw, **pass_assume)
                     kind = "Symbol"
                 elif which == "function":
-                    o = clone_as_function(src, [sympy.Symbol("q")], subscript=sub)
+                    o = clone_as_function(src, [sympy.Symbol("q")], subscript=sub, **names_kw)
                     kind = "Function"
                 else:
-                    o = clone_as_indexed(src, **{kk: v for kk, v in pass_assume.items() if kk != "commutative"})
+                    o = clone_as_indexed(src, **names_kw, **{kk: v for kk, v in pass_assume.items() if kk != "commutative"})
                     sub = None
                     kind = "IndexedSymbol"
-                exp_code = srec["display"] + (f"_{sub}" if sub else "")
-                exp_latex = srec.get("latex", srec["display"]) + (f"_{{{sub}}}" if sub else "")
+                exp_code = names_kw.get("display_symbol", srec["display"]) + (f"_{sub}" if sub else "")
+                exp_latex = names_kw.get("display_latex", srec.get("latex", srec["display"])) + (f"_{{{sub}}}" if sub else "")
                 rec.hit("clones_checked")
-                case = {"history": hid, "step": step, "source": srec, "clone": which, "subscript": sub, "passed_assumptions": pass_assume}
+                case = {"history": hid, "step": step, "source": srec, "clone": which, "subscript": sub, "passed_assumptions": pass_assume, "names": names_kw}
                 if str(o.dimension) != srec["dim"]:
                     rec.violation(f"clone-loses-dimension:{which}", f"clone of {srec} has dimension {o.dimension}", case)
                 if o.display_name != exp_code:
